@@ -154,6 +154,7 @@ func (f *flusher) worker() {
 				}
 				verifPoint("flush.next", b.key)
 				f.flush(b)
+				verifPoint("flush.done", b.key)
 			}
 		}
 	}
@@ -227,6 +228,7 @@ func (f *flusher) handleFlushFailure(key string) {
 }
 
 func (f *flusher) flushMetadatasAndUnmarkDirty(key string, b *blob) error {
+	verifPoint("flush.mdloop", key)
 	b.mu.Lock()
 	for {
 		dirtyMDSnapshot := b.dirtyMD
@@ -246,6 +248,7 @@ func (f *flusher) flushMetadatasAndUnmarkDirty(key string, b *blob) error {
 			}
 		}
 
+		verifPoint("flush.unmark", key)
 		f.mu.Lock()
 		b.mu.Lock()
 		if len(b.dirtyMD) == 0 {
